@@ -502,6 +502,12 @@ func (x *Exec) callCommon(st *State, c *ssa.CallCommon, i ssa.Value, pos token.P
 	fc, key := x.contractOf(callee)
 	st.calls[key]++
 	sig := callee.Signature
+	if key == "slices.ContainsFunc" && len(args) == 2 {
+		if r, ok := x.containsFuncModel(st, args[0], args[1]); ok {
+			setRes(fr, i, r)
+			return true
+		}
+	}
 	if fc != nil && !fc.Inline {
 		res := x.applyContract(st, fc, key, callee, sig, args, pos)
 		if sig.Results().Len() > 0 {
@@ -757,7 +763,8 @@ func (x *Exec) appendB(st *State, i *ssa.Call, args []Val) {
 	es := x.so.sortOf(sl.Elem())
 	name, sort := eName(sl.Elem()), x.eSort(sl.Elem())
 	E := x.heapSym(st, name, sort)
-	newLen := x.def(st, "Int", fmt.Sprintf("(+ (s.len %s) (s.len %s))", s.S, t.S))
+	newLen := x.declare(st, "nlen", "Int")
+	x.assume(st, fmt.Sprintf("(= %s (+ (s.len %s) (s.len %s)))", newLen, s.S, t.S))
 	inPlace := x.def(st, "Bool", fmt.Sprintf("(and (<= %s (s.cap %s)) (not (= (s.arr %s) 0)))", newLen, s.S, s.S))
 	// fresh array for the reallocation case
 	fr := x.freshRef(st)
@@ -770,7 +777,8 @@ func (x *Exec) appendB(st *State, i *ssa.Call, args []Val) {
 	x.assume(st, fmt.Sprintf("(= %s (ite %s (s.off %s) 0))", off, inPlace, s.S))
 	slen := x.declare(st, "slen", "Int")
 	x.assume(st, fmt.Sprintf("(= %s (s.len %s))", slen, s.S))
-	cp := x.def(st, "Int", fmt.Sprintf("(ite %s (s.cap %s) %s)", inPlace, s.S, ncap))
+	cp := x.declare(st, "cp", "Int")
+	x.assume(st, fmt.Sprintf("(= %s (ite %s (s.cap %s) %s))", cp, inPlace, s.S, ncap))
 	// new row contents
 	row := x.declare(st, "row", fmt.Sprintf("(Array Int %s)", es))
 	oldRow := fmt.Sprintf("(select %s (s.arr %s))", E, s.S)
@@ -796,7 +804,9 @@ func (x *Exec) appendB(st *State, i *ssa.Call, args []Val) {
 	x.assume(st, fmt.Sprintf("(=> %s (forall ((%s Int)) (! (=> (not (and (<= (+ %s (s.len %s)) %s) (< %s (+ %s %s)))) (= (select %s %s) (select %s %s))) :pattern ((select %s %s)))))", inPlace, jn, off, s.S, jn, jn, off, newLen, row, jn, oldRow, jn, row, jn))
 	x.setHeap(st, name, sort, fmt.Sprintf("(store %s %s %s)", E, arr, row))
 	x.rowFrame(st, sl.Elem(), E, arr)
-	x.bind(st, i, Val{S: fmt.Sprintf("(mk_slice %s %s %s %s)", arr, off, newLen, cp), T: i.Type()})
+	resC := x.declare(st, "app", "Slice")
+	x.assume(st, fmt.Sprintf("(= %s (mk_slice %s %s %s %s))", resC, arr, off, newLen, cp))
+	st.top().vals[i] = Val{S: resC, T: i.Type()}
 	// the same facts phrased with the element-read function (consequences of the above; they give quantified
 	// specifications about slices a trigger to fire on)
 	E2 := x.heapSym(st, name, sort)
@@ -830,4 +840,64 @@ func staticSliceLen(v ssa.Value) int {
 		return int(arr.Len())
 	}
 	return -1
+}
+
+
+// containsFuncModel models slices.ContainsFunc(s, f) for a closure f under contract whose first postcondition has
+// the shape (= result P): the result is  exists k. 0 <= k < len(s) and P[param := s[k]].  The closure's contract is
+// verified against the closure body separately; slices.ContainsFunc itself is trusted to compute the existential.
+func (x *Exec) containsFuncModel(st *State, s, f Val) (Val, bool) {
+	if f.Fn == nil {
+		return Val{}, false
+	}
+	fc, key := x.contractOf(f.Fn)
+	if fc == nil || len(fc.Ensures) == 0 || fc.Ensures[0].SX.Head() != "=" || len(fc.Ensures[0].SX.List) != 3 || fc.Ensures[0].SX.List[1].String() != "result" {
+		return Val{}, false
+	}
+	if len(f.Fn.Params) != 1 {
+		return Val{}, false
+	}
+	fc.Used = true
+	sl, ok := types.Unalias(s.T).Underlying().(*types.Slice)
+	if !ok {
+		return Val{}, false
+	}
+	env := &Env{vars: map[string]Val{}, st: st, heaps: st.heaps, epoch: st.epoch, now: st.now, oheaps: st.heaps, oepoch: st.epoch, onow: st.now}
+	if p := fnPkg(f.Fn); p != nil {
+		env.pkg = p.Path()
+	}
+	env.at = bodyPos(f.Fn)
+	for k, fv := range f.Fn.FreeVars {
+		if k < len(f.Clo) {
+			v := f.Clo[k]
+			v.Loc = x.locOf(v)
+			v.Rng = &Val{S: "addr"}
+			env.vars[fv.Name()] = v
+		}
+	}
+	kn := x.fresh("ck")
+	E := x.heapSym(st, eName(sl.Elem()), x.eSort(sl.Elem()))
+	elem := Val{S: fmt.Sprintf("(%s %s %s %s)", x.selFn(sl.Elem()), E, s.S, kn), T: sl.Elem()}
+	env.vars[f.Fn.Params[0].Name()] = elem
+	var body string
+	func() {
+		defer func() {
+			if r := recover(); r != nil {
+				if _, ok := r.(specError); ok {
+					body = ""
+					return
+				}
+				panic(r)
+			}
+		}()
+		body = x.eval(fc.Ensures[0].SX.List[2], env).S
+	}()
+	if body == "" {
+		return Val{}, false
+	}
+	x.assum["slices.ContainsFunc computes the existential of its predicate (closure "+shortKey(key)+" is under contract)"] = true
+	term := fmt.Sprintf("(exists ((%s Int)) (and (<= 0 %s) (< %s (s.len %s)) %s))", kn, kn, kn, s.S, body)
+	r := x.declare(st, "cf", "Bool")
+	x.assume(st, fmt.Sprintf("(= %s %s)", r, term))
+	return Val{S: r, T: types.Typ[types.Bool]}, true
 }
